@@ -2,7 +2,8 @@
    Statements only; proofs in Client/Alive.v (on top of Client/Salt.v, Client/LiveInv.v).
    Model: Client/Live.v - mtproto.go AFTER the repairs of this work package (every error of readMsg is
    reported through warnError instead of check(err); no panic on bad_msg_notification; warnError is a
-   non-blocking send).
+   non-blocking send; a message that cannot be handled is still acknowledged and does not cut off the rest
+   of its container).
 
    Server alphabet = the values of [body] inside arbitrary frames, injected by LSrv labels at any moment:
    rpc_result / rpc_error for ANY id (pending, unknown, already answered), plain or gzip-packed, any result
@@ -17,7 +18,7 @@
    never) and the handler are part of the configuration c. *)
 From Coq Require Import ZArith List Bool.
 From MTV Require Import Client.Model Client.StepLemmas Client.SeqNo Client.Routing
-  Client.Live Client.LiveInv Client.Salt Client.Alive Client.LiveExamples.
+  Client.Origin Client.Live Client.LiveInv Client.Salt Client.Alive Client.LiveOrigin Client.LiveExamples.
 Import ListNotations.
 Open Scope Z_scope.
 
@@ -43,7 +44,10 @@ Print Assumptions C16_alive.
 (* a client that is not keyed yet can always run its key exchange, and is keyed afterwards *)
 Theorem C16_keyex_enabled : forall s x, keyed s = false ->
   exists s', step2 s (LKeyEx x) = Some s' /\ keyed s' = true.
-Proof. intros s x K. eexists. split; [simpl; rewrite K; reflexivity|reflexivity]. Qed.
+Proof.
+  intros s x K. exists (flush (keyex2 x s)). split; [apply step2_of_i; simpl; rewrite K; reflexivity|].
+  rewrite keyed_flush. reflexivity.
+Qed.
 Print Assumptions C16_keyex_enabled.
 
 (* the invariants behind it, for every reachable state: the send lock is only held inside the critical
@@ -91,10 +95,10 @@ Proof. exact keyex_once. Qed.
 Print Assumptions C16_key_exchange_once.
 
 (* step2 extends step: every transition of Client/Model.v that Live.v does not replace is taken over
-   unchanged, and the repaired dispatch agrees with the old one wherever the old one neither panics nor
+   unchanged ([flush] only hands a pending error to warnError: it touches the Warnings channel, not the old state), and the repaired dispatch agrees with the old one wherever the old one neither panics nor
    reaches the notify pc (so C09 / C10, proved about Model.v, describe the same code on those histories) *)
 Theorem C16_conservative : forall s l b', keyed s = true -> lifted_ok s l -> step (base s) l = Some b' ->
-  step2 s (L1 l) = Some (wb b' s).
+  step2 s (L1 l) = Some (flush (wb b' s)).
 Proof. exact conservative. Qed.
 Print Assumptions C16_conservative.
 
@@ -104,14 +108,41 @@ Theorem C16_dispatch_agrees : forall f ks s,
 Proof. exact dispatch_agrees. Qed.
 Print Assumptions C16_dispatch_agrees.
 
+(* a message that cannot be handled - in a container or alone - stops nothing but itself.
+   (1) the dispatch step on a msg_container puts ALL its items on the receive loop's stack, in order;
+   (2) a frame leaves the loop's work list (the frame at the dispatch pc + the items still on the stack) only by
+       being dispatched itself: no step - in particular no error in another message - removes it;
+   (3) hence from every reachable state the client's own goroutines bring the loop back to its read, and by
+       then every message of the work list has been dispatched ([recv_of f] logged), whatever the messages
+       before it were.  (Its acknowledgement: C10_acks_live, which has no side condition any more.) *)
+Theorem C16_container_step : forall s clk sid seq b ks items, keyed s = true ->
+  rx (base s) = RDispatch (sid, seq, b) ks -> strip b = BContainer items ->
+  exists s', step2 s (L1 (LStep ARx clk)) = Some s' /\
+    rx (base s') = settle (map KItem items ++ KTail sid seq :: ks).
+Proof. exact container_step. Qed.
+Print Assumptions C16_container_step.
+
+Theorem C16_items_kept : forall ls s s' f, run2 s ls = Some s' -> In f (rx_frames (rx (base s))) ->
+  In f (rx_frames (rx (base s'))) \/ In (recv_of f) (elog (base s')).
+Proof. exact items_run. Qed.
+Print Assumptions C16_items_kept.
+
+Theorem C16_every_item_dispatched : forall c ls s, run2 (init2 c) ls = Some s -> keyed s = true ->
+  exists dl s1, Forall step_label dl /\ run2 s dl = Some s1 /\ rx (base s1) = RRead /\
+    forall f, In f (rx_frames (rx (base s))) -> In (recv_of f) (elog (base s1)).
+Proof. exact items_all_dispatched. Qed.
+Print Assumptions C16_every_item_dispatched.
+
 (* Non-vacuity (Client/LiveExamples.v) [ex_hostile]: undecodable body, bad_msg_notification, rpc_result for an
-   unknown id, unhandled update, frame refused by the transport, container with an empty container / doubly
-   gzip-packed pong / undecodable item, Warnings channel of capacity 1 never drained, then close: the loop
-   survives (5 failures reported, 1 warning queued, 5 dropped), reconnects as generation 2 without a plain
-   frame, and a call completes. *)
+   unknown id (odd seq_no: acknowledged all the same), unhandled update, frame refused by the transport, container
+   with an empty container / doubly gzip-packed pong / undecodable item / an update AFTER it (processed and
+   acknowledged), Warnings channel of capacity 1 never drained, then close: the loop survives (5 messages ended in
+   an error, 7 warnings: 1 queued, 6 dropped), reconnects as generation 2 without a plain frame, and a call
+   completes. *)
 Example C16_example : exists s, run2 (init2 cfg_full_warn) ex_hostile = Some s /\
-  rx (base s) = RRead /\ rets (base s) = [(0%nat, 1%nat, 40, RetVal KObj 99)] /\
-  failed s = 5%nat /\ warned s = 1%nat /\ dropped s = 5%nat /\ gen s = 2%nat /\ plain_out s = 0%nat.
+  rx (base s) = RRead /\ rets (base s) = [(0%nat, 1%nat, 48, RetVal KObj 99)] /\
+  failed s = 5%nat /\ warned s = 1%nat /\ dropped s = 6%nat /\ gen s = 2%nat /\ plain_out s = 0%nat /\
+  map (fun w => (w_id w, w_kind w)) (wire (base s)) = [(48, WReq 0 1 false); (44, WAck 25); (40, WAck 9)].
 Proof. eexists. split; [vm_compute; reflexivity|repeat split; reflexivity]. Qed.
 
 Example C16_example_fresh : exists s, run2 (init2 cfg_fresh) ex_fresh = Some s /\
